@@ -150,6 +150,10 @@ def obligations_status(build, theorems, bridge):
 
 
 def bridge_file(b):
+    if b.startswith('effects_'):
+        return 'Effects.lean'
+    if b.startswith('mech_'):
+        return 'Mech.lean'
     if b.startswith('sig') or b.startswith('callArity'):
         return 'Sigs.lean'
     if b.startswith('msg_'):
